@@ -18,7 +18,7 @@ from ..util import calls_in, qual, formals, returns_of, raises_of, \
     raise_name, has_fact, bind
 from ..terms import Terms, V, match, show, lookup, presence, strip_new, \
     alternatives, subterms, owner_terms, is_none, reify, mk_cmp, \
-    bit_test
+    bit_test, plain
 
 MC = "rig.machine_control.machine_controller"
 CTRL = MC + ":MachineController"
@@ -328,20 +328,29 @@ def _traverse(program, rep):
               fail="the loop over a node's children can stop early: later "
                    "children's directions are missing from the entry and "
                    "their sub-trees are never visited")
-    # out directions: d added iff d is not None
+    # out directions: the set yielded holds d for every child (d, _) with
+    # d is not None, and nothing else -- whether it is filled by the child
+    # loop or built by a comprehension
     isnone = is_none(CD)
-    adds = [c for c in calls_in(lp, "add")
-            if len(c.args) == 1 and TL.term(c.args[0]) == CD]
-    oka = len(adds) == 1
-    SET = None
+    ys = [n for n in ast.walk(tr) if isinstance(n, ast.Yield)]
+    if len(ys) != 1 or _inside(ys[0], lp):
+        raise AnalysisError("traverse: expected one yield per node visited")
+    yn = T.cfg.node_containing(ys[0])
+    yt = T.term(ys[0].value, yn)
+    if not (yt[0] == "tuple" and len(yt) == 4):
+        raise AnalysisError("traverse: the value yielded is not a triple")
+    SET = yt[3]
+    built = T.filtered(SET)
+    if not built:
+        raise AnalysisError("traverse: how the out directions are collected "
+                            "was not recognised")
+    oka = len(built) == 1
     if oka:
-        an = TL.cfg.node_containing(adds[0])
-        SET = TL.term(adds[0].func.value, an)
-        some = TL.under((isnone, False))
-        none = TL.under((isnone, True))
-        oka = some.must_pass(body, lambda n: n is an,
-                             targets=[head, TL.cfg.exit]) and \
-            not none.live(an)
+        bit_, bel, bconds = built[0]
+        bcd = ("comp", ("elem", bit_), 0)
+        oka = plain(bit_) == plain(it) and plain(bel) == plain(bcd) and \
+            [(plain(c), p_) for c, p_ in bconds] == [
+                (plain(is_none(bcd)), False)]
     rep.check(oka, "C10-R1", inst, "every child direction that is not None "
               "(and only those) joins the node's out directions",
               construct="traverse out directions", node=tr)
@@ -364,25 +373,19 @@ def _traverse(program, rep):
               "nothing else) is queued with the direction leading to it",
               construct="traverse enqueue", node=tr)
     # the yield: (direction, chip, out set) of the node taken from the queue
-    ys = [n for n in ast.walk(tr) if isinstance(n, ast.Yield)]
-    oky = len(ys) == 1 and not _inside(ys[0], lp) and SET is not None and \
-        Q is not None
+    oky = Q is not None
     if oky:
-        yn = T.cfg.node_containing(ys[0])
-        yt = T.term(ys[0].value, yn)
-        oky = yt[0] == "tuple" and len(yt) == 4
-        if oky:
-            d, chip, outs = yt[1:]
-            pop = [t for t in subterms(NODE)
-                   if t[0] in ("call", "callv") and t[1][0] == "attr" and
-                   t[1][2] in ("popleft", "pop") and t[1][1] == Q]
-            if not pop:
-                raise AnalysisError("RoutingTree.traverse: nodes are not "
-                                    "taken from the queue by pop/popleft; "
-                                    "that traversal form is not analysed")
-            oky = bool(pop) and NODE == ("comp", pop[0], 1) and \
-                d == ("comp", pop[0], 0) and \
-                chip == ("attr", NODE, "chip") and outs == SET
+        d, chip, outs = yt[1:]
+        pop = [t for t in subterms(NODE)
+               if t[0] in ("call", "callv") and t[1][0] == "attr" and
+               t[1][2] in ("popleft", "pop") and t[1][1] == Q]
+        if not pop:
+            raise AnalysisError("RoutingTree.traverse: nodes are not "
+                                "taken from the queue by pop/popleft; "
+                                "that traversal form is not analysed")
+        oky = bool(pop) and NODE == ("comp", pop[0], 1) and \
+            d == ("comp", pop[0], 0) and \
+            chip == ("attr", NODE, "chip")
     rep.check(oky, "C10-R1", inst, "each node taken from the queue yields "
               "(arrival direction, its chip, the out directions collected "
               "from its children)", construct="traverse yield", node=tr)
